@@ -371,6 +371,15 @@ def run(rep, tier):
     neg_rule(rep, us["utils/num2str.h"])
     len_rule(rep, us["utils/utf8.h"], "utf8_decode")
     rep.floor("URL unescape byte cases", url_decode_rule(rep, us["src/proto/http.c"]), 500)
+    # the hex codecs report what they wrote and zero what they did not: extent lints shared with C12
+    from props import memsafe
+    ub = us["src/utils/buf_str.c"]
+    for f_ in ub.function_list:
+        if f_.relfile() == "src/utils/buf_str.c" and f_.has_cfg and f_.name.startswith("cvt_"):
+            rep.functions.add(f_.name)
+            memsafe.stale_bound_rule(rep, f_)
+            memsafe.tail_fill_rule(rep, f_)
+            memsafe.unguarded_write_rule(rep, f_)
     return driver.finish(
         rep, "other",
         "Static analysis of the codec tables and of three structural rules. Decided: Base64 alphabet/inverse table, pow10lst, all CRC-32 "
